@@ -440,6 +440,7 @@ class Engine:
         kwargs = {k.arg: self.eval(k.value, st, spec) for k in node.keywords}
         if isinstance(fn, FnV):
             if fn.kind == "spec":
+                args = [pyops.listv_to_seq(self, a) if isinstance(a, ListV) and a.items else a for a in args]
                 return fn.fn(self, st, *args, **kwargs)
             if fn.kind == "named":
                 if fn.name in BUILTINS:
